@@ -78,7 +78,9 @@ def gen_daily(rng: random.Random):
     elif style == "month_edge":
         # a block of missing temperature days touching the first / last local day of a calendar month
         days = pd.date_range(start, periods=n, freq="D")
-        mstarts = [i for i, d in enumerate(days) if d.day == 1 and 0 < i < n - 6]
+        # (the block must stay inside the series: 4 <= i, so that "the last days of the previous month" are not negative positions,
+        # which Python would read as the END of the series — leading / trailing missing temperature is trimmed by the class by design)
+        mstarts = [i for i, d in enumerate(days) if d.day == 1 and 4 < i < n - 6]
         if mstarts:
             i0 = rng.choice(mstarts)
             k = rng.choice([3, 4])
